@@ -157,11 +157,12 @@ PROPS = {
     },
     "C10": {
         "title": "Copying between forests preserves the function",
-        "rules": [rules_ftype.rule_mix_copy],
-        "explanation": STRUCTURAL + ". C10: cross-forest clause — copy_MT, copy_EV_fast, copy_EV<…> read only the source forest and build only in the target forest (copy_inforest: one forest by construction).",
+        "rules": [rules_ftype.rule_mix_copy, callers_for("C10"), on_program(rules_level.rule_next_level)],
+        "explanation": STRUCTURAL + ". C10: cross-forest clause — copy_MT, copy_EV_fast, copy_EV<…> read only the source forest and build only in the target forest (copy_inforest: one forest by construction); "
+                       "every value placed in the copy comes from the conversion of a source value, never from the target's transparent edge (who-may-call table for getTransparentEdge / getTransparentNode); level discipline of the copy recursion.",
         "assumptions": ["scalar conversions and round-trip identity are not decided", "terminal handles are treated as forest independent"],
-        "technique": "forest-indexed typing of node handles over clang CFGs",
-        "level_text": "exact static rule check over operations/copy.cc (all instantiations); decides the cross-forest clause only",
+        "technique": "forest-indexed typing of node handles over clang CFGs; who-may-call table over the resolved call graph; sign typing of level locals",
+        "level_text": "exact static rule check over operations/copy.cc (all instantiations) and the callers of the transparent-edge getters; decides the cross-forest, value-provenance and level-sign clauses only",
         "design_ref": "DESIGN.md §2.2, §3 C10",
         "level_note": "trusts clang 14 CFGs and the role table of compute() parameters",
     },
